@@ -10,7 +10,7 @@ import itertools
 import random
 
 from .. import tlc
-from ..absgrammar import (Gen, alt, call, chars_of, const, eof, grammar, make_cfg, named, opt, pat, rule, seq, star, tok, void)
+from ..absgrammar import (Gen, alt, call, chars_of, const, eof, grammar, make_cfg, named, opt, pat, rule, seq, skipto, star, tok, void)
 from ..common import Check, pmap
 from ..layers import ABSENT, run_layers_case
 from ..pegcheck import conformance
@@ -18,7 +18,9 @@ from ..pegcheck import conformance
 GAPS = ['', ' ', '\t', '\n', ' \t ', '#c\n', '(*c*)', ' (*c*) #d\n ', '#c\n#d\n', '(*c*)(*d*)', '(*c*)#d\n',
         # runs that are whitespace / comments only under the last two configurations: a whitespace definition that also matches a
         # non-space character, and comment openers that begin like the token '+'
-        ',', ' , ', '++c\n', '+*c*+']
+        ',', ' , ', '++c\n', '+*c*+',
+        # comments whose text is something the grammar could match
+        '(*b*)', '#b\n']
 
 
 def layouts(tokens, rnd, n):
@@ -59,6 +61,8 @@ def grammars():
         'no-eof': grammar(rule('s', seq(a, star(b)))),
         'digits': grammar(rule('s', seq(a, opt(pat(['1'], 1, True)), star(alt(b, tok('a1'))), eof()))),
         'guarded': grammar(rule('s', seq(a, star(tok('ab')), star(b), opt(p), eof()))),
+        # ->e skips ahead to e; what it skips is input, whitespace and comments - a comment is never scanned for e
+        'skip-to': grammar(rule('s', seq(a, skipto(b), opt(p), eof()))),
     }
 
 
@@ -118,9 +122,11 @@ def part_b(ck, tier):
         s, c, d, p = key.split('/')
         if s == 'left_recursion' and d == 'False':
             continue        # the grammar is (and must be, C16) rejected at compile time: nothing to parse
-        for be in ('model', 'generated', 'parse'):
+        for be in ('model', 'generated', 'parse', 'modelsource'):
             if be == 'parse' and c != ABSENT:
                 continue
+            if be == 'modelsource' and s == 'left_recursion':
+                continue        # the model source of a left-recursive grammar under left_recursion=False cannot be generated
             cases.append({'setting': s, 'c': c, 'd': d, 'p': p, 'backend': be, 'expect': v['eff'],
                           'expect_again': (d if d != ABSENT else (c if c != ABSENT else None))})
     res = pmap(run_layers_case, cases, procs=16, chunk=6, recycle=120)
@@ -138,7 +144,7 @@ def part_b(ck, tier):
             c_decides_here = case['c'] != ABSENT and case['d'] == ABSENT and (field == 'again' or case['p'] == ABSENT)
             if c_decides_here and ck.known('KF-C09-1', what):
                 continue
-            if case['setting'] == 'parseinfo' and case['d'] == 'True' and case['backend'] in ('generated', 'parse') \
+            if case['setting'] == 'parseinfo' and case['d'] == 'True' and case['backend'] in ('generated', 'parse', 'modelsource') \
                     and o.get(field) == 'False' and (field == 'again' or case['p'] == ABSENT) and ck.known('KF-C09-2', what):
                 continue
             ck.violation({'kind': 'history', 'inputs': case, 'expected': {field: want}, 'observed': o,
@@ -156,7 +162,7 @@ def run(tier):
                       'rule, constant/void, lower-case rule calls, no $, name-like tokens) x 10 configurations (comments as directives / as '
                       'settings, none, blank-only whitespace, whitespace off, nameguard off, namechars, ignorecase, whitespace that also matches a comma, comment openers that begin like a token) x every layout of token '
                       'sequences <=3 (+6) with every gap kind in every slot; model + generated parser.  (B) every combination of '
-                      'compile/directive/parse layer values for 8 settings x {model, generated, tatsu.parse}. non-trivial = accepted layout '
+                      'compile/directive/parse layer values for 8 settings x {model, generated parser, tatsu.parse, parser class of the generated model source (constructor settings as the lowest layer)}. non-trivial = accepted layout '
                       'with distinct (grammar, cfg, AST) / a layer point with at least one layer present')
     ck.cov['exhaustive'] = True
     return ck.finish()
